@@ -17,6 +17,10 @@
      done       Switch (only when the fence and every outbox row reached the target):
                 UpdateOwnedHashSlots on both machines; the target serves H.
 
+   A target batch may also carry one command of the target's own traffic next to the deltas
+   (Deliver's `mate`): one that turns out stale when the batch commits, or one that makes the
+   state machine refuse the batch.
+
    One action per ApplyBatch / call on a state machine.  A write is identified by its
    source log index; `tApplied` is the order in which the target first applied writes
    (the harness replays exactly that order on an oracle state machine and compares
@@ -129,16 +133,37 @@ TgtFold(r, ms, j) == IF j > Len(ms) THEN r ELSE TgtFold(TgtOne(r, ms[j]), ms, j 
 Copies(ms, i) == Cardinality({q \in 1..Len(ms) : ms[q] = i})
 
 \* ApplyBatch on the target with the deltas ms (1 to 3 source indexes, possibly equal),
-\* each taken from the channel.
-Deliver(ms) ==
+\* each taken from the channel, and possibly one co-batched command of the target's own
+\* traffic (raft hands several committed entries to one ApplyBatch), the "mate":
+\*   "none"     no mate.
+\*   "stale"    a conditional command whose observation turns out stale when the write batch
+\*              commits (retention advance / guarded migration-task command on a row that is
+\*              not there).  The commit of the whole batch fails; the state machine falls
+\*              back to applying the batch command by command.  What the property asks of
+\*              that: the mate is a no-op answered "stale_meta", every delta of the batch is
+\*              applied exactly as if it had been delivered alone (once, with its durable
+\*              applied record), so that a redelivery is skipped and the source may ack.
+\*   "refused"  a command for a hash slot the target does not own: ApplyBatch refuses the
+\*              batch as a whole, nothing of it takes effect, the copies taken from the
+\*              channel are gone; the deltas count as NOT applied (no record, no ack) and
+\*              are applied by a later delivery.
+Mates == {"none", "stale", "refused"}
+
+Deliver(ms, mate) ==
   /\ Len(ms) \in 1..3
+  /\ mate \in Mates
   /\ \A j \in 1..Len(ms) : chan[ms[j]] >= Copies(ms, ms[j])
-  /\ LET r == TgtFold([delta |-> tDelta, app |-> tApplied], ms, 1)
+  /\ LET r == IF mate = "refused" THEN [delta |-> tDelta, app |-> tApplied]
+                                  ELSE TgtFold([delta |-> tDelta, app |-> tApplied], ms, 1)
      IN /\ tDelta' = r.delta
         /\ tApplied' = r.app
   /\ chan' = [i \in Idx |-> chan[i] - Copies(ms, i)]
-  /\ ev' = [a |-> "Deliver", ms |-> ms, res |-> [err |-> FALSE]]
+  /\ ev' = [a |-> "Deliver", ms |-> ms, mate |-> mate,
+            res |-> [err |-> (mate = "refused"), mate |-> IF mate = "stale" THEN "stale" ELSE "none"]]
   /\ UNCHANGED <<phase, sidx, srcAcc, snapIdx, outbox, lastOut, fence, hasState, sends, tw, ownS, ownT, bare>>
+
+TgtApplyWithStaleMate(ms) == Deliver(ms, "stale")
+TgtApplyRefused(ms)       == Deliver(ms, "refused")
 
 \* Channel faults.
 Dup(i) ==
@@ -230,7 +255,7 @@ MsgSeqs  == {<<i>> : i \in Idx} \cup (IF MaxDeliver >= 2 THEN {<<i, j>> : i \in 
 Next ==
   \/ \E ks \in KindSeqs, lose \in Lose : SrcApply(ks, lose)
   \/ StartDelta
-  \/ \E ms \in MsgSeqs : Deliver(ms)
+  \/ \E ms \in MsgSeqs : Deliver(ms, "none") \/ TgtApplyWithStaleMate(ms) \/ TgtApplyRefused(ms)
   \/ \E i \in Idx : Dup(i) \/ Drop(i) \/ Ack(i)
   \/ \E Snt \in SUBSET outbox : Retry(Snt)
   \/ Switch
@@ -266,6 +291,14 @@ C39_Recoverable == phase \in {"delta", "switching"} => SrcWrites \subseteq (outb
 \* A replayed delta is a no-op.
 C39_ReplayNoop ==
   [][ev'.a = "Deliver" /\ (\A j \in 1..Len(ev'.ms) : ev'.ms[j] \in tDelta) => tApplied' = tApplied /\ tDelta' = tDelta]_vars
+
+\* A target batch answered without error leaves a durable applied record for each of its
+\* deltas, whatever else shared the batch (that record is what the orchestrator acks on); a
+\* refused batch leaves nothing behind.
+C39_AnsweredMeansRecorded ==
+  [][ev'.a = "Deliver" =>
+       IF ev'.res.err THEN tDelta' = tDelta /\ tApplied' = tApplied
+       ELSE \A j \in 1..Len(ev'.ms) : ev'.ms[j] \in tDelta']_vars
 
 \* Ordinary writes for H are refused by a machine that does not own it, without effect.
 C39_NonOwnerRefuses ==
